@@ -108,6 +108,7 @@ type strInterp struct {
 	jseen     map[ssa.Instruction]bool
 	phiVal    map[*ssa.Phi]sabs
 	phiElems  map[*ssa.Phi]sabs
+	builders  map[*ssa.Function]*builderModel
 }
 
 func newStrInterp(c *Ctx) *strInterp {
@@ -138,6 +139,7 @@ func (si *strInterp) solve(funcs []*ssa.Function) {
 		si.memo = map[ssa.Value]sabs{}
 		si.fnRet = map[*ssa.Function]sabs{}
 		si.junctions = nil
+		si.builders = nil
 		for _, p := range phis {
 			if isStringType(p.Type()) {
 				nxt := sabs{}
@@ -166,12 +168,14 @@ func (si *strInterp) solve(funcs []*ssa.Function) {
 	si.memo = map[ssa.Value]sabs{}
 	si.fnRet = map[*ssa.Function]sabs{}
 	si.junctions = nil
+	si.builders = nil
 	for _, fn := range funcs {
 		allInstrs(fn, func(in ssa.Instruction) {
 			if v, ok := in.(ssa.Value); ok && isStringType(v.Type()) {
 				si.eval(v)
 			}
 		})
+		si.builderModelOf(fn)
 	}
 }
 
@@ -236,6 +240,14 @@ func (si *strInterp) recordJunction(at *ssa.BinOp, a, b sabs) {
 func (si *strInterp) evalCall(call *ssa.Call) sabs {
 	f := call.Call.StaticCallee()
 	if f == nil {
+		return absUnknown()
+	}
+	if name, recv := builderMethod(call); name == "String" {
+		if al, ok := recv.(*ssa.Alloc); ok && modelledBuilders(call.Parent())[al] {
+			if r, ok := si.builderModelOf(call.Parent()).result[call]; ok {
+				return r
+			}
+		}
 		return absUnknown()
 	}
 	pk := ""
@@ -377,6 +389,10 @@ func flatten(v ssa.Value, depth int) []leaf {
 		}
 		return []leaf{{kind: "other", val: v}}
 	case *ssa.Call:
+		if isModelledBuilderWrite(x) {
+			// b.WriteString(e) is `acc += e`
+			return append([]leaf{{kind: "acc", val: v}}, flatten(x.Call.Args[1], depth+1)...)
+		}
 		f := x.Call.StaticCallee()
 		if f != nil {
 			pk := ""
@@ -439,9 +455,18 @@ func stringRoots(fn *ssa.Function) []ssa.Value {
 			if p, ok := ref.(*ssa.BinOp); ok && p.Op == token.ADD && isStringType(p.Type()) {
 				isOperand = true
 			}
+			if call, ok := ref.(*ssa.Call); ok && isModelledBuilderWrite(call) {
+				isOperand = true
+			}
 		}
 		if !isOperand {
 			out = append(out, bo)
+		}
+	})
+	// writes into a modelled strings.Builder are accumulations too
+	allInstrs(fn, func(in ssa.Instruction) {
+		if call, ok := in.(*ssa.Call); ok && isModelledBuilderWrite(call) {
+			out = append(out, call)
 		}
 	})
 	return out
